@@ -319,8 +319,9 @@ def handle (orc : Oracle) (m : Mach) (t : Tx) (name : HName) (to : ToState)
 
 def isAutoState (m : Mach) (s : Nat) : Bool := (m.sch.get s).auto
 
-/-- `emitExitEvents`. `slices.Delete(_, -1, 0)` panics: an Auto state's Exit
-    veto inside an auto transition crashes the caller. -/
+/-- `emitExitEvents` (after the `fix:` commit: an Auto state's Exit veto inside an
+    auto transition cancels; the pinned code called `slices.Delete(_, -1, 0)`
+    and panicked on the caller's goroutine). -/
 def emitExits (orc : Oracle) : S → Mach → Tx → Mach × Tx × Bool
   | [], m, t => (m, t, true)
   | s :: rest, m, t =>
@@ -328,7 +329,7 @@ def emitExits (orc : Oracle) : S → Mach → Tx → Mach × Tx × Bool
     if ok then emitExits orc rest m1 t1
     else if t1.mu.isAuto && isAutoState m1 s then
       if t1.target.contains s then emitExits orc rest m1 { t1 with target := without t1.target s }
-      else ({ m1 with crashed := true }, t1, false)
+      else (m1, t1, false)
     else (m1, t1, false)
 
 /-- `emitEnterEvents`. -/
